@@ -210,6 +210,48 @@ func rowUnit(mag, y uint8, cells []byte, badParity map[int]bool, id byte) []byte
 	return dataUnit(id, mag&7, y, d)
 }
 
+// ham2418 encodes 18 data bits with the Hamming 24/18 code of ETS 300 706 (8.3); the three bytes are returned as they
+// appear in a PES data unit (bits reversed).
+func ham2418(d uint32) [3]byte {
+	bit := func(n int) uint32 { return d >> (n - 1) & 1 } // D1..D18
+	x := func(ns ...int) uint32 {
+		v := uint32(1)
+		for _, n := range ns {
+			v ^= bit(n)
+		}
+		return v
+	}
+	p1 := x(1, 2, 4, 5, 7, 9, 11, 12, 14, 16, 18)
+	p2 := x(1, 3, 4, 6, 7, 10, 11, 13, 14, 17, 18)
+	p3 := x(2, 3, 4, 8, 9, 10, 11, 15, 16, 17, 18)
+	p4 := x(5, 6, 7, 8, 9, 10, 11)
+	p5 := x(12, 13, 14, 15, 16, 17, 18)
+	b1 := p1 | p2<<1 | bit(1)<<2 | p3<<3 | bit(2)<<4 | bit(3)<<5 | bit(4)<<6 | p4<<7
+	b2 := bit(5) | bit(6)<<1 | bit(7)<<2 | bit(8)<<3 | bit(9)<<4 | bit(10)<<5 | bit(11)<<6 | p5<<7
+	b3 := bit(12) | bit(13)<<1 | bit(14)<<2 | bit(15)<<3 | bit(16)<<4 | bit(17)<<5 | bit(18)<<6
+	// P6: overall odd parity
+	ones := bits.OnesCount32(b1) + bits.OnesCount32(b2) + bits.OnesCount32(b3)
+	if ones%2 == 0 {
+		b3 |= 1 << 7
+	}
+	return [3]byte{bits.Reverse8(byte(b1)), bits.Reverse8(byte(b2)), bits.Reverse8(byte(b3))}
+}
+
+// designationUnit builds an X/28/0 format 1 (y=28) or M/29/0 (y=29) packet that designates the Latin G0/G2 sets with
+// the national option sub-set given by C12-C14 (table 32: bits 14-11 = 0000, bits 10-8 = C12 C13 C14); all other
+// triplets are zero.
+func designationUnit(mag, y uint8, c12, c13, c14 uint8) []byte {
+	t1 := uint32(c12)<<9 | uint32(c13)<<8 | uint32(c14)<<7 // page function 0 (bits 1-4), page coding 0 (bits 5-7)
+	d := []byte{ham84(0)}
+	tr := ham2418(t1)
+	d = append(d, tr[0], tr[1], tr[2])
+	z := ham2418(0)
+	for i := 0; i < 12; i++ {
+		d = append(d, z[0], z[1], z[2])
+	}
+	return dataUnit(0x03, mag&7, y, d)
+}
+
 // enhancementUnit builds an X/26, X/27, X/28, M/29 or 8/30 packet with a designation code and arbitrary triplet bytes.
 func enhancementUnit(mag, y, designation uint8) []byte {
 	d := []byte{ham84(designation)}
@@ -294,6 +336,8 @@ type ttxInstance struct {
 	C13     uint8    `json:"c13"`
 	C14     uint8    `json:"c14"`
 	SplitAt int      `json:"split_at"` // >0: rows from this index on go into a second PES with a later PTS
+	// PackWithNext: the instance is carried in the PES packet of the next instance (its presentation time is that packet's)
+	PackWithNext bool `json:"pack_with_next,omitempty"`
 }
 
 type ttxStream struct {
@@ -312,6 +356,7 @@ type ttxStream struct {
 	Filler        bool  `json:"filler"`       // 0xFF time-filling headers
 	HexDistractor bool  `json:"hex_distractor"`
 	SamePageOther bool  `json:"same_page_other_mag"` // parallel mode only
+	Designation   int   `json:"designation"`         // 1: X/28/0 after each header, 2: M/29/0 before each header, designating the set the header already selects
 	LeadIn        int64 `json:"lead_in"`             // PTS of a PES sent before the first instance (sets the time origin); 0 none
 	LeadOut       int64 `json:"lead_out"`            // extra PTS after the last instance
 	// reader options
@@ -385,6 +430,8 @@ func (s ttxStream) render() ([]byte, []ttxExpCue) {
 	}
 	var exp []ttxExpCue
 	var headers []int64
+	var carry [][]byte
+	var pending []int
 	for ii, in := range s.Instances {
 		if s.PMTRepeat && ii > 0 {
 			tables()
@@ -393,7 +440,13 @@ func (s ttxStream) render() ([]byte, []ttxExpCue) {
 		if s.Filler {
 			units = append(units, headerUnit(ttxHeader{Mag: otherMag, Tens: 0xf, Units: 0xf, Serial: s.Serial}, 0x03))
 		}
+		if s.Designation == 2 {
+			units = append(units, designationUnit(s.Mag, 29, in.C12, in.C13, in.C14))
+		}
 		units = append(units, headerUnit(sel(in), 0x03))
+		if s.Designation == 1 {
+			units = append(units, designationUnit(s.Mag, 28, in.C12, in.C13, in.C14))
+		}
 		headers = append(headers, in.PTS)
 		secondPTS := in.PTS
 		var second [][]byte
@@ -430,6 +483,20 @@ func (s ttxStream) render() ([]byte, []ttxExpCue) {
 			}
 			*target = append(*target, u)
 		}
+		if in.PackWithNext && ii+1 < len(s.Instances) && len(second) == 0 {
+			// this instance travels in the PES packet of the next one (same presentation time)
+			carry = append(carry, units...)
+			pending = append(pending, ii)
+			continue
+		}
+		if len(carry) > 0 {
+			units = append(carry, units...)
+			carry = nil
+			for _, j := range pending {
+				headers[j] = in.PTS
+			}
+			pending = nil
+		}
 		send(ttxPID, in.PTS, units...)
 		if len(second) > 0 {
 			send(ttxPID, secondPTS, second...)
@@ -444,6 +511,11 @@ func (s ttxStream) render() ([]byte, []ttxExpCue) {
 				th.Mag = otherMag
 			}
 			tu := [][]byte{headerUnit(th, 0x03), rowUnit(th.Mag, 5, append(append([]byte{0x0b, 0x0b}, "TERMINATING PAGE"...), 0x0a, 0x0a), nil, 0x03)}
+			if th.Mag != s.Mag {
+				// serial mode: the header of another magazine ended the page; a stray packet carrying the selected
+				// magazine's number afterwards does not belong to the selected page any more
+				tu = append(tu, rowUnit(s.Mag, 7, append(append([]byte{0x0b, 0x0b}, "ORPHAN ROW"...), 0x0a, 0x0a), nil, 0x03))
+			}
 			if s.HexDistractor {
 				// a page with a hexadecimal digit: tens*10+units must not alias the selected page
 				var ht, hu uint8 = 0xff, 0xff
@@ -471,7 +543,7 @@ func (s ttxStream) render() ([]byte, []ttxExpCue) {
 		if len(in.Rows) == 0 {
 			continue
 		}
-		c := ttxExpCue{StartPTS: in.PTS - minPTS}
+		c := ttxExpCue{StartPTS: headers[ii] - minPTS}
 		if ii+1 < len(s.Instances) {
 			c.EndPTS = headers[ii+1] - minPTS
 		} else {
@@ -720,6 +792,7 @@ func genTTXStream(t *rapid.T) ttxStream {
 		SamePageOther: rapid.Bool().Draw(t, "samepage"),
 		OptPage:       rapid.Bool().Draw(t, "optpage"),
 		OptPID:        rapid.Bool().Draw(t, "optpid"),
+		Designation:   rapid.SampledFrom([]int{0, 0, 1, 2}).Draw(t, "designation"),
 	}
 	pts := rapid.Int64Range(2, 90000*3600).Draw(t, "pts0")
 	if rapid.Bool().Draw(t, "leadin") {
@@ -746,6 +819,9 @@ func genTTXStream(t *rapid.T) ttxStream {
 			}
 			if len(in.Rows) > 1 && rapid.IntRange(0, 2).Draw(t, "split") == 0 {
 				in.SplitAt = rapid.IntRange(1, len(in.Rows)-1).Draw(t, "splitat")
+			}
+			if in.SplitAt == 0 && rapid.IntRange(0, 5).Draw(t, "pack") == 0 {
+				in.PackWithNext = true
 			}
 		}
 		s.Instances = append(s.Instances, in)
